@@ -5,6 +5,7 @@ import (
 	"encoding/json"
 	"errors"
 	"fmt"
+	"sort"
 	"strconv"
 	"strings"
 	"time"
@@ -50,7 +51,13 @@ type GlobalNode struct {
 }
 
 func (gn *GlobalNode) UpdateConfig(cfg *config.StringMap) (err error) {
-	for key, value := range cfg.Fields {
+	keys := make([]string, 0, len(cfg.Fields))
+	for key := range cfg.Fields {
+		keys = append(keys, key)
+	}
+	sort.Strings(keys)
+	for _, key := range keys {
+		value := cfg.Fields[key]
 		switch key {
 		case MinMintAmount:
 			amount, err := strconv.ParseFloat(value, 64)
